@@ -73,23 +73,34 @@ class Grid(col.MutableSequence):
     def _approx_check(v1, v2):
         # Check types match
         if isinstance(v1, datetime.time):
-            return v1.replace(microsecond=0) == v2.replace(microsecond=0)
+            return isinstance(v2, datetime.time) and \
+                   v1.replace(microsecond=0) == v2.replace(microsecond=0)
         elif isinstance(v1, datetime.datetime):
-            return v1.tzinfo == v2.tzinfo and \
+            return isinstance(v2, datetime.datetime) and \
+                   v1.tzinfo == v2.tzinfo and \
                    v1.date() == v2.date() and \
                    Grid._approx_check(v1.time(), v2.time())
         elif isinstance(v1, Quantity):
-            return v1.unit == v2.unit and \
+            return isinstance(v2, Quantity) and \
+                   v1.unit == v2.unit and \
                    Grid._approx_check(v1.value, v2.value)
         elif isinstance(v1, Coordinate):
-            return Grid._approx_check(v1.latitude, v2.latitude) and \
+            return isinstance(v2, Coordinate) and \
+                   Grid._approx_check(v1.latitude, v2.latitude) and \
                    Grid._approx_check(v1.longitude, v2.longitude)
         elif isinstance(v1, float) or isinstance(v2, float):
-            return abs(v1 - v2) < 0.000001
+            for v in (v1, v2):
+                if isinstance(v, bool) or \
+                        not isinstance(v, (int, float)):
+                    # A float never equals a value of another kind
+                    return False
+            return (v1 == v2) or (abs(v1 - v2) < 0.000001)
         else:
             return v1 == v2
 
     def __eq__(self, other):
+        if not isinstance(other, Grid):
+            return False
         if set(self.metadata.keys()) != set(other.metadata.keys()):
             return False
         for key in self.metadata.keys():
